@@ -108,6 +108,27 @@ func (C02) Gen(r *simrt.RNG, tier string) core.Case {
 		full := w.Ops[0]
 		full.Args = append([]int{}, full.Args...)
 		breakWorld(r, &w)
+		// a value under the right name and type but another (non-empty) subtype is no help
+		if r.Chance(1, 5) {
+			for _, sl := range w.Parties[0].In {
+				if sl.Sub == "" || world.IsIface(sl.Type) {
+					continue
+				}
+				l := sl.Label
+				if l.Sub == world.Subs[0] {
+					l.Sub = world.Subs[1]
+				} else {
+					l.Sub = world.Subs[0]
+				}
+				a := world.ArgSpec{Kind: world.ArgTyped, Label: l}
+				if l.Name != "" {
+					a.Kind, a.Spell = world.ArgNamed, l.Name
+				}
+				w.Args = append(w.Args, a)
+				w.Ops[0].Args = append(append([]int{}, w.Ops[0].Args...), len(w.Args)-1)
+				break
+			}
+		}
 		if r.Chance(1, 8) {
 			// a run-once target that has already succeeded must still refuse an underivable call
 			// (other run-once parties are excluded: a memoised converter is used without
